@@ -1031,6 +1031,15 @@ func c20Fresh(c *Ctx) {
 			for _, w := range fr.writeTargets(in) {
 				key := ord.next(f, "write")
 				ok, pi := fr.fresh(w, in, 0)
+				if _, isCall := in.(*ssa.Call); isCall && ok {
+					// handed to a function that writes through it, nested levels included: a container made here whose
+					// elements were copied from a shared container (a one-level copy of a map of maps) is fresh at the top
+					// only - what the callee overwrites below is still the live configuration's
+					if why := shallowCopyOfShared(fr, w, in); why != "" {
+						c.Fail("C20.R3", key, nearestPos(in), "the redactor hands a one-level copy ("+why+") to a function that overwrites nested values: the maps and lists below the first level are still shared with the live configuration, so producing a dump rewrites the live / persisted config (the placeholder is written back by the next file dump)")
+						continue
+					}
+				}
 				switch {
 				case ok:
 					c.Pass("C20.R3", key, nearestPos(in), "target memory allocated in this call")
@@ -1669,4 +1678,44 @@ func c20DumpWritesNoFiles(c *Ctx) {
 		c.Check("C20.R5", funcKey(f)+":not-on-admin-path", f.Pos(), !reach[f], "restores "+fld+" for the persisted dump only; not reachable from the admin handlers", f.Name()+" puts "+fld+" back into the configuration and is reachable from an admin handler: marshalling the redacted view for the HTTP response then runs the directory-mode MarshalJSON, which rewrites the persisted cluster / router files with the placeholder in place of the private key - the restart file loses the real key")
 	}
 	c.Extra["path_restorers"] = strings.Join(names, ",")
+}
+
+// shallowCopyOfShared: v is a map or slice made in this function whose elements are reference-typed values copied out of a
+// container that is not fresh (the range / look-up of a parameter's map). "" otherwise.
+func shallowCopyOfShared(fr *freshCtx, v ssa.Value, at ssa.Instruction) string {
+	v = stripIface(v)
+	mk, ok := v.(*ssa.MakeMap)
+	if !ok {
+		return ""
+	}
+	refTyped := func(t types.Type) bool {
+		switch t.Underlying().(type) {
+		case *types.Interface, *types.Map, *types.Slice, *types.Pointer:
+			return true
+		}
+		return false
+	}
+	for _, r := range refs(mk) {
+		mu, isMU := r.(*ssa.MapUpdate)
+		if !isMU || mu.Map != ssa.Value(mk) || !refTyped(mu.Value.Type()) {
+			continue
+		}
+		// the value comes out of a range / look-up over a container that is not fresh
+		src := mu.Value
+		if ex, isEx := src.(*ssa.Extract); isEx {
+			if nx, isNx := ex.Tuple.(*ssa.Next); isNx {
+				if rg, isRg := nx.Iter.(*ssa.Range); isRg {
+					if okF, _ := fr.fresh(rg.X, at, 1); !okF {
+						return "elements ranged out of a shared map"
+					}
+				}
+			}
+		}
+		if lk, isLk := src.(*ssa.Lookup); isLk {
+			if okF, _ := fr.fresh(lk.X, at, 1); !okF {
+				return "elements looked up in a shared map"
+			}
+		}
+	}
+	return ""
 }
